@@ -3,7 +3,7 @@ Monitor O02: for generated accepted programs the paths and schema components of 
 document equal, up to the names of implicit components, the document computed by an
 independent reference semantics (vlib/denote.py) from the generator's own abstract syntax."""
 import json
-from . import core, progs, canon, denote, docval
+from . import core, progs, canon, denote, docval, evaltie
 
 
 def first_diff(a, b, path=""):
@@ -147,6 +147,8 @@ def check(ctx):
         'let wrap x = { \'data! x `title: "Envelope payload"`, \'n num };\n# title: "Customer name"\nlet name = str;\nres /w on get -> <wrap name>;\n',
         'let f x y = { \'first x, \'second y };\nlet g y x = f y x;\nres /g on get -> <g num str> :: <status=404, (g [num] { \'k bool })>;\n',
     ]
+    evaltie.run(ctx, ps[: (1200 if ctx.thorough else 250)] + [{"mods": {"file:///main.oal": t}, "main": "file:///main.oal"} for t in extra]
+                + evaltie.known_witnesses() + evaltie.repo_corpus())
     res = progs.compile_many(ps)
     seen = set()
     for p, r in zip(ps, res):
